@@ -74,6 +74,13 @@ def r1(ctx: Context) -> None:
             if call_name(ic) == "index_arguments_for_concurrency_control":
                 for n in cfg_node_of(g, f.node, ic, pm):
                     idx_nodes.add(n.id)
+        # a loop over the registered collection whose body indexes each element counts as the
+        # indexing point (an empty collection has nothing to index)
+        reg_names = names_in(c.args[0]) if c.args else set()
+        for n in g.nodes:
+            if n.kind == "for" and isinstance(n.ast, ast.For) and names_in(n.ast.iter) & reg_names:
+                if any(call_name(x) == "index_arguments_for_concurrency_control" and x.args and names_in(x.args[0]) & names_in(n.ast.target) for x in calls_in(n.ast)):
+                    idx_nodes.add(n.id)
         # blocked edges: (test node id, label) implying disabled
         blocked = set()
         for n in g.nodes:
@@ -125,6 +132,14 @@ def r1(ctx: Context) -> None:
                 a = ic.args[0] if ic.args else None
                 reg_arg = c.args[0] if c.args else None
                 ok = a is not None and reg_arg is not None and bool(names_in(a) & names_in(reg_arg))
+                if not ok and a is not None and reg_arg is not None:
+                    # element of a loop over the registered collection
+                    pm_ = parent_map(f.node)
+                    cur = pm_.get(id(ic))
+                    while cur is not None and not ok:
+                        if isinstance(cur, ast.For) and names_in(cur.iter) & names_in(reg_arg) and names_in(a) & names_in(cur.target):
+                            ok = True
+                        cur = pm_.get(id(cur))
                 ctx.add("R1", f"{f.qualname}::indexes-the-same-invocation", ok, f.loc(ic), "" if ok else "a different object is indexed than was registered")
 
 
